@@ -76,6 +76,10 @@ class Gen:
                     return self.rng.choice(anyn)       # name of an element of another class
         if r < 0.15:
             return self.fresh(p) + self.rng.choice(['-a', '.b', '_c', '-1'])
+        if cls == O.NODE and r > 0.96 and 'strand' not in self.avoid:
+            # a long (valid) node name: with a component name chosen below the derived service-port name
+            # <node>-<comp>-p1 stays valid while the derived link name <...>-link is too long
+            return (self.fresh(p) + 'L' * 200)[:200]
         return self.fresh(p)
 
     def ids(self, cls, pred=None):
@@ -117,6 +121,10 @@ class Gen:
             return None
         n = self.rng.choice(nodes)
         ct, model = self.rng.choice(COMP_MODELS)
+        longn = [x for x in nodes if len(self.g.name(x) or '') >= 150 and not self.g.nb(x, 'has', O.COMP)]
+        if longn:
+            n = longn[0]                      # a NIC for the node with the long name (see new_name)
+            ct, model = self.rng.choice([c for c in COMP_MODELS if NIFS.get(c[0], 0)])
         if self.bad():
             model = self.rng.choice(['NoSuchModel', 'ConnectX-6', 'RTX6000'])
         cid = self.new_id('c')
@@ -132,6 +140,9 @@ class Gen:
         sib = [self.g.name(c) for c in self.g.nb(n, 'has', O.COMP) if self.g.name(c)]
         if sib and self.rng.random() < 0.12:
             name = self.rng.choice(sib)        # sibling name: must be refused
+        nn = self.g.name(n) or ''
+        if len(nn) >= 150 and len(name) < 20:
+            name = (name + 'M' * 100)[:247 - len(nn)]      # <node>-<comp>-p1 is 251 characters long
         return ['add_component', n, name, cid, ct, model, ns_id, if_ids]
 
     def op_add_storage(self):
@@ -272,6 +283,9 @@ class Gen:
             top = ss
         if not top or not pool:
             return None
+        longs = [i for i in pool if len(g.name(i) or '') >= 40]
+        if longs and self.rng.random() < 0.5:
+            pool = longs        # the derived link name is too long: the call fails after the port was made
         return ['connect', self.rng.choice(top), self.rng.choice(pool)]
 
     def op_disconnect(self):
